@@ -341,7 +341,7 @@ class Interp:
                 d0 = self.defdepth[-1].get(st.target.id, 0)
                 acc = rhs
                 for it in reversed(self.loops[d0:]):
-                    if isinstance(it, tuple) and it and it[0] == "while!":
+                    if isinstance(it, tuple) and it and it[0] in ("while!", "for!"):
                         continue        # concretely executed iterations add up by themselves
                     acc = ("acc", it, acc)
                 self.bind(st.target.id, simplify(OP(op, old, acc)), aug=True)
@@ -368,8 +368,27 @@ class Interp:
             it = self._ev(st.iter)
             if isinstance(st, ast.For) and self._generator_loop(st, it):
                 return
-            self.emit("loop", it, st)
             roles = self.loop_roles(it, self.depth) if self.loop_roles else None
+            if isinstance(st, ast.For) and roles is None and it[0] == "c" and isinstance(it[1], tuple) and len(it[1]) <= 32 and not st.orelse:
+                # a loop over a folded constant tuple is executed element by element (exact)
+                kind = ("for!", it)
+                self.emit("loop", kind, st)
+                self.loops.append(kind)
+                try:
+                    for x in it[1]:
+                        self._assign(st.target, C(x), st, quiet=True)
+                        try:
+                            self._block(st.body)
+                        except _Continue:
+                            self.emit("continue", None, st)
+                        except _Break:
+                            self.emit("break", None, st)
+                            break
+                finally:
+                    self.loops.pop()
+                    self.emit("endloop", kind, st)
+                return
+            self.emit("loop", it, st)
             elem = _elem_of(it)
             if roles is not None and isinstance(st.target, (ast.Tuple, ast.List)) and len(roles) == len(st.target.elts):
                 for t, r in zip(st.target.elts, roles):
